@@ -18,6 +18,7 @@
     writer_is_lines code_is_rendered_lines indentation_read_back try_blank_line_example
     unsupported_stmt_rejected py312_rejected py312_supported
     char_lines_match_token_lines indentation_matches_token_lines indentation_read_back_supported
+    indentation_matches_token_lines_supported
 -/
 import Genshi.Lemmas.PyParseS5
 import Genshi.Lemmas.PyStmtSpec
@@ -28,6 +29,7 @@ import Genshi.Lemmas.PyLayout
 import Genshi.Lemmas.PyGenOkS
 import Genshi.Lemmas.PyLayoutLines
 import Genshi.Lemmas.PyLayoutText
+import Genshi.Lemmas.PyLayoutAgree
 namespace Genshi.Props.C13
 open Genshi.Py Genshi.Gen
 
@@ -631,5 +633,15 @@ example : charsOKB exModule = true := by decide +kernel
 example : ∃ code, codeS exModule = some code ∧
     retok code = some (((genBodyC 0 exModule).filter (fun l => !l.blank)).map fun l => (l.indent, l.text)) :=
   indentation_read_back_supported exModule exModule_supported (by decide +kernel) (by decide +kernel)
+
+/-- … and the depths CPython's line structure assigns to the generated string are the indentation levels of the
+    token-level lines `genBody 0 body` (the lines `parseS_genS` reads), with hypotheses on the tree only -/
+theorem indentation_matches_token_lines_supported (body : List PyStmt) (h : SupportedS body) (hc : charsOKB body = true)
+    (hne : genBodyC 0 body ≠ []) :
+    ∃ code ls, codeS body = some code ∧ retok code = some ls ∧ ls.map (·.1) = (genBody 0 body).map (·.indent) :=
+  indentation_matches_token_lines body (wfsl_genOk body h.1) hne (linesOK_body body 0 h.1 hc) (textOKB_of body h.1 hc)
+
+example : ∃ code ls, codeS exModule = some code ∧ retok code = some ls ∧ ls.map (·.1) = (genBody 0 exModule).map (·.indent) :=
+  indentation_matches_token_lines_supported exModule exModule_supported (by decide +kernel) (by decide +kernel)
 
 end Genshi.Props.C13
